@@ -8,10 +8,17 @@ package main
 
 import (
 	"context"
+	"fmt"
+	"os"
+	"regexp"
+	"regexp/syntax"
+	"sort"
+	"strings"
 	"unicode"
 
 	"github.com/sourcegraph/zoekt"
 	"github.com/sourcegraph/zoekt/index"
+	"github.com/sourcegraph/zoekt/query"
 
 	"verifharness/gen"
 )
@@ -106,4 +113,289 @@ func traceCase(w *gen.Writer, sh *shardH, q *QSpec, detail any) {
 	w.Emit(cs)
 }
 
-func runComponents(w *gen.Writer, r *gen.Rand, f gen.Flags) {}
+// runComponents: component correspondences that do not need a shard.
+func runComponents(w *gen.Writer, r *gen.Rand, f gen.Flags) {
+	runBtree(w, r.Fork(), f)
+	runWord(w, r.Fork(), f)
+	runSelect(w, r.Fork(), f)
+	runCaseNgrams(w, r.Fork(), f)
+	runExtract(w, r.Fork(), f)
+}
+
+// runExtract: L9. The real regexpToMatchTreeRecursive on generated and hand-picked regexps (parsed with zoekt's flags,
+// raw or optimised as the query front ends do) against the Lean model: extracted literal tree, isEqual, singleLine.
+func runExtract(w *gen.Writer, r *gen.Rand, f gen.Flags) {
+	dir, err := os.MkdirTemp(os.Getenv("VERIF_WORK"), "c01x-")
+	if err != nil {
+		panic(err)
+	}
+	defer os.RemoveAll(dir)
+	c := genCorpus(r.Fork(), false)
+	p, err := buildSimpleShard(dir, 0, &c.Repos[0])
+	if err != nil {
+		panic(err)
+	}
+	s, err := openSearcher(p)
+	if err != nil {
+		panic(err)
+	}
+	defer s.Close()
+	fixed := []string{"foo.*bar", "(foo|bar)baz", "fo+", "(abc){2,}", "(abc){1,3}", "(abc){0,2}x", "abc|", "a.c", "^foo$", "foo\\nbar",
+		"(?i)foo", "foo(?s:.*)bar", `\bfoo\b`, "[a-c]def", "(foo)(bar)?", "x*", "(?:abc)+def", "éa.*日本語", "foo|bar|ba", "(foo|bar)|baz",
+		"abc(def|ghi)jkl", "abc.*", ".*", "(?i:abc)def", "ab", "abcd", "foo\\s+bar", "(a|b)cdef", "日本語|abc", "(abc)+", "((abc))", "abc{2}", "(abcabc|xyz)", "a|b", "(?s)abc.def"}
+	g := newQGen(r.Fork(), c)
+	n := f.N(600, 20000)
+	for i := 0; i < n; i++ {
+		var pat string
+		if i < len(fixed) {
+			pat = fixed[i]
+		} else {
+			pat = g.regexSource()
+		}
+		re, err := syntax.Parse(pat, zoektRegexpFlags)
+		if err != nil {
+			continue
+		}
+		if r.Chance(2, 3) {
+			re = query.OptimizeRegexp(re, zoektRegexpFlags)
+		}
+		cs := r.Bool()
+		ast, out, err := index.VerifExtract(s, re, cs)
+		if err != nil {
+			w.Count("extract-error", 1)
+			continue
+		}
+		b := "0"
+		if cs {
+			b = "1"
+		}
+		class := "extract-brute"
+		if strings.Contains(out, "S:") {
+			class = "extract-literals"
+		}
+		if strings.Contains(out, "eq=1") {
+			class = "extract-isEqual"
+		}
+		w.Emit(gen.Case{In: "extract " + b + " " + ast, Impl: out, Class: class, Nontrivial: strings.Contains(out, "S:")})
+	}
+}
+
+// runCaseNgrams: the real generateCaseNgrams against the Lean odometer model; unicode.SimpleFold enters the model as
+// the table of the successor of every member of the three runes' fold orbits.
+func runCaseNgrams(w *gen.Writer, r *gen.Rand, f gen.Flags) {
+	n := f.N(600, 20000)
+	pool := []rune("abkKsSσΣς-_9éÉ日ßẞǅǆ\u212a\u017fİıθϑ")
+	for c := 0; c < n; c++ {
+		var rs [3]rune
+		for i := range rs {
+			rs[i] = gen.Pick(r, pool)
+			if r.Chance(1, 10) {
+				rs[i] = rune(r.Range(32, 0x2000))
+			}
+		}
+		table := map[rune]rune{}
+		for _, x := range rs {
+			for y := unicode.SimpleFold(x); ; y = unicode.SimpleFold(y) {
+				table[y] = unicode.SimpleFold(y)
+				if y == x {
+					break
+				}
+			}
+		}
+		var keys []int
+		for k := range table {
+			keys = append(keys, int(k))
+		}
+		sort.Ints(keys)
+		var tb []string
+		for _, k := range keys {
+			tb = append(tb, fmt.Sprintf("%d:%d", k, table[rune(k)]))
+		}
+		vs := index.VerifCaseNgrams(rs[0], rs[1], rs[2])
+		var out []string
+		for _, v := range vs {
+			out = append(out, fmt.Sprintf("%d.%d.%d", v[0], v[1], v[2]))
+		}
+		class := fmt.Sprintf("case-variants-%d", len(vs))
+		w.Emit(gen.Case{In: fmt.Sprintf("casengrams %d,%d,%d %s", rs[0], rs[1], rs[2], strings.Join(tb, ",")),
+			Impl: "variants=" + strings.Join(out, "|"), Class: class, Nontrivial: len(vs) > 1})
+	}
+}
+
+// runSelect: L5. The real trigram selection (splitNGrams, sort, indexMap, findSelectiveNgrams) with ARBITRARY
+// frequencies against the Lean model.
+func runSelect(w *gen.Writer, r *gen.Rand, f gen.Flags) {
+	n := f.N(1500, 40000)
+	alphabet := []rune("abcabAé日-_")
+	for c := 0; c < n; c++ {
+		ln := r.Range(3, 12)
+		if r.Chance(1, 10) {
+			ln = r.Range(3, 40)
+		}
+		pat := make([]rune, ln)
+		for i := range pat {
+			pat[i] = gen.Pick(r, alphabet)
+		}
+		nt := ln - 2
+		freqs := make([]uint32, nt)
+		for i := range freqs {
+			switch r.Intn(4) {
+			case 0:
+				freqs[i] = uint32(1 + r.Intn(3))
+			case 1:
+				freqs[i] = uint32(1 + r.Intn(1000))
+			case 2:
+				freqs[i] = 7
+			default:
+				freqs[i] = uint32(1 + r.Intn(5)*1000)
+			}
+		}
+		first, last, genuine := index.VerifSelectNgrams(string(pat), freqs)
+		g := 0
+		if genuine {
+			g = 1
+		}
+		var runes []int
+		for _, x := range pat {
+			runes = append(runes, int(x))
+		}
+		class := "select-apart"
+		if last-first < 3 {
+			class = "select-close"
+		}
+		if first == last {
+			class = "select-same"
+		}
+		w.Emit(gen.Case{In: "select " + intList(runes) + " " + gen.NatList(freqs), Impl: fmt.Sprintf("first=%d last=%d genuine=%d", first, last, g),
+			Class: class, Nontrivial: first != last})
+	}
+}
+
+// runWord: L10. The real wordMatchTree.matches on generated bytes against the Lean transcription; the Go oracle is the
+// standard library's regexp for \b<word>\b whenever newMatchTree would take the fast path for that word.
+func runWord(w *gen.Writer, r *gen.Rand, f gen.Flags) {
+	n := f.N(1500, 40000)
+	pieces := []string{"foo", "foo", "bar", "-", "_", " ", "\n", "x", "foo-foo", "a", "é", "9", ".", "Foo", "ab"}
+	wordsL := []string{"foo", "foo-foo", "a", "ab", "aa", "foo_", "x-x", "9", "-foo", "foo-", "é", "a.a", "aba"}
+	for c := 0; c < n; c++ {
+		var sb strings.Builder
+		for i := r.Range(1, 8); i > 0; i-- {
+			sb.WriteString(gen.Pick(r, pieces))
+		}
+		data := []byte(sb.String())
+		word := gen.Pick(r, wordsL)
+		if r.Chance(1, 4) && len(data) > 1 {
+			a := r.Intn(len(data))
+			b := a + 1 + r.Intn(min(4, len(data)-a))
+			word = string(data[a:b])
+		}
+		if r.Chance(1, 5) {
+			// a failing occurrence that overlaps a passing one: <word byte> w w[k:] for a self-overlapping w
+			ov := gen.Pick(r, [][2]string{{"aba", "ba"}, {"foo-foo", "-foo"}, {"aa", "a"}, {"a_a", "_a"}, {"x-x", "-x"}, {"abab", "ab"}})
+			word = ov[0]
+			data = []byte(gen.Pick(r, []string{"x", "9", "_", ""}) + ov[0] + ov[1] + gen.Pick(r, []string{"", " ", "-", "z"}))
+		}
+		offs := index.VerifWordMatches(data, word)
+		goV := "ok"
+		fast := index.VerifWordFastPath(word)
+		if fast {
+			want := regexp.MustCompile(`\b` + regexp.QuoteMeta(word) + `\b`).Match(data)
+			if want != (len(offs) > 0) {
+				goV = fmt.Sprintf("word fast path says %v, regexp \\b%s\\b says %v on %q", len(offs) > 0, word, want, data)
+			}
+		}
+		class := "word-not-eligible"
+		if fast {
+			class = "word-fastpath"
+		}
+		cs := gen.Case{In: "word " + gen.Hex(data) + " " + gen.Hex([]byte(word)), Impl: "found=" + gen.NatList(offs), Go: goV,
+			Class: class, Nontrivial: len(offs) > 0}
+		if goV != "ok" {
+			cs.Key = "word-fastpath-vs-regexp"
+			cs.Detail = gen.Detail(map[string]string{"data": string(data), "word": word})
+		}
+		w.Emit(cs)
+	}
+}
+
+// runBtree: L12. The real b-tree (index.VerifBtree: newBtree/insert/freeze, find, btreeIndex.Get over an in-memory
+// index file) against the Lean model, for small bucket sizes and fan-outs (so that leaf and inner-node splits, exact
+// bucket multiples and the oversized last bucket all occur) and once with the production options.
+func runBtree(w *gen.Writer, r *gen.Rand, f gen.Flags) {
+	n := f.N(400, 6000)
+	for c := 0; c < n; c++ {
+		B := 2 * r.Range(1, 4)
+		v := r.Range(2, 4)
+		h := B / 2
+		var cnt int
+		switch r.Intn(4) {
+		case 0:
+			cnt = r.Intn(3 * B)
+		case 1:
+			cnt = h*r.Range(0, 4*v*v) + r.Range(-1, 1)
+		case 2:
+			cnt = r.Intn(h * v * v * 6)
+		default:
+			cnt = B*r.Range(0, 2*v) + r.Range(-1, 1)
+		}
+		if cnt < 0 {
+			cnt = 0
+		}
+		if c == 0 {
+			B, v, cnt = 1024, 50, 2600 // production options (one leaf split level)
+		}
+		ngs := make([]uint64, 0, cnt)
+		cur := uint64(r.Intn(5))
+		for i := 0; i < cnt; i++ {
+			cur += uint64(1 + r.Intn(4))
+			ngs = append(ngs, cur)
+		}
+		var qs []uint64
+		qs = append(qs, 0, cur+3)
+		step := 1
+		if cnt > 200 {
+			step = cnt / 100
+		}
+		for i := 0; i < cnt; i += step {
+			qs = append(qs, ngs[i])
+			if r.Chance(1, 2) {
+				qs = append(qs, ngs[i]+1)
+			}
+			if r.Chance(1, 4) && ngs[i] > 0 {
+				qs = append(qs, ngs[i]-1)
+			}
+		}
+		shape, finds, gets := index.VerifBtree(B, v, ngs, qs)
+		var fs []string
+		for _, x := range finds {
+			fs = append(fs, fmt.Sprintf("%d:%d", x[0], x[1]))
+		}
+		found := 0
+		for _, g := range gets {
+			if g >= 0 {
+				found++
+			}
+		}
+		in := fmt.Sprintf("btree %d %d %s %s", B, v, gen.NatList(ngs), gen.NatList(qs))
+		impl := fmt.Sprintf("shape=%s find=%s get=%s", strings.ReplaceAll(shape, " ", "_"), strings.Join(fs, ","), intList(gets))
+		class := "btree-leaf-root"
+		if strings.Contains(shape, "[") {
+			class = "btree-inner"
+			if strings.Count(shape, "[") > 1 {
+				class = "btree-inner-multi"
+			}
+		}
+		w.Emit(gen.Case{In: in, Impl: impl, Class: class, Nontrivial: found > 0 && found < len(gets)})
+	}
+}
+
+func intList(xs []int) string {
+	if len(xs) == 0 {
+		return "-"
+	}
+	var ss []string
+	for _, x := range xs {
+		ss = append(ss, fmt.Sprint(x))
+	}
+	return strings.Join(ss, ",")
+}
